@@ -80,6 +80,11 @@ type reqState struct {
 	multi       bool       // more than one matching tx was on the chain at once (script reuse): semantics left open
 	stale       bool       // a stale rescan answer naming a vanished block was delivered
 	orphan      bool       // a positive rescan answer arrived while no client was subscribed any more
+	// orphanHint: such an answer also moved the PERSISTED hint to the height
+	// of details nobody tracks for reorgs; unlike the cached details this
+	// survives a restart (the hint stays above the event if that block is
+	// disconnected and the transaction re-mined lower).
+	orphanHint bool
 }
 
 // judged reports whether the liveness/hint obligations apply to the request.
@@ -300,6 +305,9 @@ func (s *Sim) fail(rs *reqState, code, format string, args ...interface{}) {
 	kind := "conf"
 	if rs != nil && rs.spend {
 		kind = "spend"
+	}
+	if rs != nil && rs.orphanHint && !rs.orphan && !rs.stale && hintFamily {
+		s.R.FailSig("orphan-details-untracked", kind, "%s [in an earlier process epoch request %s received a positive historical-rescan answer while it had no subscriber left: its persisted hint was moved to the height of details that nobody tracked for reorgs and stayed there when that block was disconnected; consequence class %s]", msg, rs.key, code)
 	}
 	if rs != nil && rs.orphan && !rs.stale {
 		s.R.FailSig("orphan-details-untracked", kind, "%s [request %s received a positive historical-rescan answer while it had no subscriber left; consequence class %s]", msg, rs.key, code)
